@@ -57,6 +57,7 @@ def expand(macro, t, k, rng):
         "stream3": [f"stream {f}", f"pollr {f} {w}", f"pollr {f} {w2}", f"pollr {f} {w}"],
         "close": [f"close {rng.choice('sr')}"], "drops": ["drop s"], "dropr": ["drop r"],
         "clones": [f"clone s {rng.choice([0, 1])}"], "cloner": [f"clone r {rng.choice([0, 1])}"],
+        "convs": ["conv s"], "convr": ["conv r"], "clonesx": ["clone s 0"], "clonerx": ["clone r 0"],
         "len": ["len r"], "isfull": ["isfull s"], "scount": ["scount r"], "rcount": ["rcount s"], "isclosed": ["isclosed s"],
         "isdisc": [f"isdisc {rng.choice('sr')}"], "isterm": ["isterm r"],
     }
@@ -593,6 +594,59 @@ ALL_MONITORS = {
     "wake": lambda run, ctx: mon_wake(run),
     "close": lambda run, ctx: mon_close(run),
 }
+
+
+SPECEXPLORE = os.path.join(ROOT, "lean", ".lake", "build", "bin", "specexplore")
+
+
+def run_outcome(run):
+    """Per-thread result sequences of a scheduled run, in specexplore's outcome format."""
+    per = {}
+    for o in run.ops():
+        per.setdefault(o["tid"], []).append(o["res"] if o["ret"] is not None else "STUCK")
+    tids = sorted(per, key=lambda t: int(t[1:]))
+    return "|".join(f"{t}:" + ",".join(per[t]) for t in tids)
+
+
+def run_linearizability(profile, seed, stats, runs_per_prog=6, workers=16):
+    """C03: for each small program, the outcome of every scheduled run of the real crate must be one of the
+    outcomes of the Lean model under all interleavings of its atomic steps (specexplore)."""
+    rng = random.Random(seed * 7919 + 13)
+    progs = [gen_program(profile, rng, i) for i in range(profile.n)]
+    fails = []
+
+    def one(prog):
+        p = subprocess.run([SPECEXPLORE, "600000"], input=prog, stdout=subprocess.PIPE, stderr=subprocess.PIPE, text=True)
+        outs = set(l for l in p.stdout.strip().split("\n") if l)
+        complete = p.returncode == 0
+        res = []
+        for k in range(runs_per_prog):
+            strat = profile.strategies[(k + rng.randint(0, 100)) % len(profile.strategies)]
+            pr = re.sub(r"seed=\d+", f"seed={1 + k * 7919 + (hash(prog) % 1000)}", re.sub(r"strategy=\S+", f"strategy={strat}", prog))
+            run = run_conc(pr)
+            oc = run_outcome(run)
+            res.append((pr, run, oc))
+        return prog, outs, complete, res
+
+    with ThreadPoolExecutor(max_workers=workers) as ex:
+        for prog, outs, complete, res in ex.map(one, progs):
+            stats["lin_programs"] = stats.get("lin_programs", 0) + 1
+            stats["lin_outcomes"] = stats.get("lin_outcomes", 0) + len(outs)
+            if not complete:
+                stats["lin_incomplete"] = stats.get("lin_incomplete", 0) + 1
+            for pr, run, oc in res:
+                stats["conc_programs"] += 1
+                stats["conc_events"] += len(run.events)
+                stats["conc_nontrivial"].add(hashlib.md5((pr + oc).encode()).hexdigest())
+                if len(stats["conc_samples"]) < 2:
+                    stats["conc_samples"].append({"profile": profile.name, "program": pr.strip().split("\n"), "outcome": oc,
+                                                  "model_outcomes": len(outs)})
+                if complete and oc not in outs:
+                    fails.append({"kind": "conc", "profile": profile.name + ":linearizability", "program": pr, "schedule": run.schedule,
+                                  "failures": [f"outcome {oc} is not among the {len(outs)} outcomes of the atomic-channel model"],
+                                  "model_outcomes": sorted(outs)[:12],
+                                  "trace_tail": [ln for ln in run.lines if " call " in ln or " ret " in ln][-40:]})
+    return fails
 
 
 def run_profile(profile, seed, monitors, oracles, stats, workers=16):
